@@ -258,6 +258,19 @@ func bindGating(s *Summary) {
 			}
 		}
 	}
+	// switching validation off (even twice) and on again: on means on
+	binding.DisableValidator()
+	binding.DisableValidator()
+	binding.ResetValidator()
+	{
+		var v bindRequired
+		err, pan := safeBind(func() error { return binding.Auto(mkReq("GET", "/b", "", ""), &v) })
+		s.Compared++
+		if pan != nil || err == nil {
+			s.mismatch(map[string]any{"kind": "bind", "aspect": "validation", "what": fmt.Sprintf(
+				"after DisableValidator, DisableValidator, ResetValidator a struct with a missing required field was bound: err=%v panic=%v", err, pan)}, nil)
+		}
+	}
 	binding.ResetValidator()
 	// validation depends on the TYPE bound into, not on which types were bound before: rule-less types first, then types
 	// with the same (or no) name that do carry rules
